@@ -146,6 +146,37 @@ def run(ctx):
         if lost or leaked or changed:
             ctx.violation('%s: prepare does not conserve the policy set: lost %s, leaked %s, content changed %s' % (cfg.name(), lost[:4], leaked[:4], changed[:4]),
                           {'config': cfg.name(), 'lost': lost[:40], 'leaked': leaked[:40], 'changed': changed[:40]})
+    # ---- history: the prepare stage of several targets in ONE process (as a test driver or a packaging script that loops over
+    # distributions does): each target's result must be what the same target gives in a process of its own
+    ok_res = [r for r in results if r[2] is not None]
+    nhist = nhdiff = 0
+    if len(ok_res) >= 2:
+        first = ok_res[0]
+        other = next((r for r in ok_res[1:] if r[0].dist != first[0].dist), ok_res[1])
+        seq = [first, other, first]
+        trees, hops = [], []
+        for k, (cfg, op, got, (out, tasks)) in enumerate(seq):
+            tree = os.path.join(ctx.scratch, 'hist-%d-%s' % (k, cfg.name()))
+            lib.copy_tree(tree)
+            trees.append(tree)
+            hops.append('%s\t%s\t%d\t%s\t%s' % (esc(tree), cfg.dist, cfg.abi, cfg.version, esc_list(tasks)))
+        hres = ctx.run_go('cliprepare', hops)
+        for k, ((cfg, op, got, _), tree, r) in enumerate(zip(seq, trees, hres)):
+            nhist += 1
+            if r != 'ok':
+                ctx.violation('prepare of %s fails when it runs after another target in the same process' % cfg.name(), {'sequence': [x[0].name() for x in seq], 'position': k, 'reply': r})
+                continue
+            now = dict(listing(os.path.join(tree, '.build'), 'apparmor.d') + listing(os.path.join(tree, '.build'), 'share')
+                       + listing(os.path.join(tree, '.build'), 'systemd'))
+            diff = sorted(kk for kk in set(now) | set(got) if now.get(kk) != got.get(kk))
+            if diff:
+                nhdiff += 1
+                ctx.violation('%s: the prepared policy set depends on which targets were prepared before it in the same process (position %d of %s): %s differ'
+                              % (cfg.name(), k + 1, [x[0].name() for x in seq], diff[:5]),
+                              {'sequence': [x[0].name() for x in seq], 'position': k, 'differing_entries': diff[:40]})
+        for t in trees:
+            shutil.rmtree(t, ignore_errors=True)
+    ctx.cov['search']['prepare_history'] = {'targets_in_one_process': nhist, 'differing_from_own_process': nhdiff}
     ctx.cov['evaluations'] += nent
     ctx.count_distinct([c.name() for c in cfgs])
     ctx.cov['search']['real_prepare'] = {'configs': len(cfgs), 'entries_compared': nent}
